@@ -121,7 +121,7 @@ func c11Case(c *Ctx, tr interface{}, tag string) {
 
 func init() {
 	campaigns["C11"] = func(c *Ctx) {
-		c.Rule = "values of the 13 pointer types offering Clean() and item lists of them, generated type-directed from the struct definitions with bto/bcc forced on every generated object at every depth (<=3 quick, <=4 thorough), embedded objects by pointer and by value, links, lists with nil members, on and off the walked properties; first a covering set (each type x each walked property holding an object with bto+bcc, each shape: single pointer, single value, list), then random. Distinct by request hash; every case is non-trivial (it carries private recipients)."
+		c.Rule = "values of the 13 pointer types offering Clean() and item lists of them, generated type-directed from the struct definitions with bto/bcc planted with probability 0.55 on each generated object at every depth (so that objects without private recipients embed objects with them) (<=3 quick, <=4 thorough), embedded objects by pointer and by value, links, lists with nil members, on and off the walked properties; first a covering set (each type x each walked property holding an object with bto+bcc, each shape: single pointer, single value, list), then random. Distinct by request hash; every case is non-trivial (it carries private recipients)."
 		// covering set
 		priv := func(g *GenCfg, ptr bool) T {
 			return T{"t": "Object", "ptr": ptr, "f": T{"ID": T{"s": g.nextID("priv")}, "Type": T{"s": "Note"},
@@ -156,7 +156,7 @@ func init() {
 			}
 		}
 		cfg := &GenCfg{MaxDepth: c.N(3, 4), Density: 22, ValueNodes: true, NilMembers: true, Links: true, EmptyTypes: true, MultiLang: true,
-			Force: map[string]bool{"Bto": true, "BCC": true}}
+			Force: map[string]bool{"Bto": true, "BCC": true}, ForcePct: 55}
 		for i := 0; i < c.N(2500, 60000); i++ {
 			typ := objectGoTypes[c.R.Intn(len(objectGoTypes))]
 			tr := cfg.genNode(c.R, typ, cfg.MaxDepth, false)
